@@ -838,6 +838,11 @@ fn fx(s: &str) -> u64 {
     Fnv::new().str(s).finish()
 }
 
+/// hash of an answer with the (per-process) document directory aliased away
+fn fxa(s: &str) -> u64 {
+    fx(&s.replace(&base_dir().display().to_string(), "BASE"))
+}
+
 impl Check for C14Check {
     fn id(&self) -> &'static str {
         "C14"
@@ -1536,12 +1541,12 @@ fn compare_all(
         }
         stats.log(&format!(
             "{opi}:query:{d}:{}:{}:{}:{}:{}:{}",
-            fx(&a.symbols.to_string()),
-            fx(&a.tokens.to_string()),
-            fx(&strip_result_ids(&a.diagnostics).to_string()),
-            fx(&a.formatting.to_string()),
-            fx(&a.highlight.to_string()),
-            fx(&a.range_formatting.to_string())
+            fxa(&a.symbols.to_string()),
+            fxa(&a.tokens.to_string()),
+            fxa(&strip_result_ids(&a.diagnostics).to_string()),
+            fxa(&a.formatting.to_string()),
+            fxa(&a.highlight.to_string()),
+            fxa(&a.range_formatting.to_string())
         ));
         for (what, x, y) in [
             ("symbols", &a.symbols, &b.symbols),
